@@ -153,6 +153,13 @@ def run(chk):
         for w in ({'type': 'language-content', 'spec_version': '2.1', 'id': 'language-content--' + U, 'created': '2020-01-01T00:00:00.000Z', 'modified': '2020-01-01T00:00:00.000Z', 'object_ref': 'identity--' + U},):
             for contents in JUNK_QUICK + [{'de': 'text'}, {'de': ['x']}, {'de': {}}, {'de': {'name': 5}}, {'de': None}, {'': {'name': 'n'}}, {'de': {'': 'n'}}]: yield dict(w, contents=contents)
 
+        # members named like the constructors' private / option keywords (they arrive as **kwargs from the input mapping): junk of every shape
+        for base in ({'type': 'directory', 'path': '/x', 'contains_refs': ['0']}, {'type': 'email-message', 'is_multipart': False, 'from_ref': '1', 'to_refs': ['0', '1']},
+                     {'type': 'file', 'name': 'f', 'parent_directory_ref': '0', 'extensions': {'archive-ext': {'contains_refs': ['0']}}}, {'type': 'identity', 'spec_version': '2.1', 'id': 'identity--' + G.UUID, 'name': 'n'}):
+            for key in ('_valid_refs', 'custom_properties', 'allow_custom', 'interoperability', '_store', 'version'):
+                for junk_v in JUNK_QUICK + [{'0': None}, {'0': 5}, {'0': True}, {'0': []}, {'0': ['file']}, {'0': {}}, {'0': {'type': 'file'}}, {'0': 'file', '1': None}, {'1': 5, '0': 'directory'}, {'0': [[{'a': None}]]}]:
+                    yield dict(base, **{key: junk_v})
+
     def check_raw(w):
         for fn, nm in ((lambda: stix2.parse(copy.deepcopy(w)), 'parse'), (lambda: stix2.parse(copy.deepcopy(w), allow_custom=True), 'parse(allow_custom)'),
                        (lambda: stix2.parse(copy.deepcopy(w), version='2.1'), 'parse(version=2.1)'), (lambda: stix2.parse(copy.deepcopy(w), version='2.0', allow_custom=True), 'parse(version=2.0, allow_custom)')):
@@ -160,7 +167,7 @@ def run(chk):
             except Exception as ex:      # noqa
                 if not family_ok(ex): return (f'escape#{type(ex).__name__}', f'{nm}({json.dumps(w)[:170]}): {type(ex).__name__}: {str(ex)[:100]}', {'input': w})
     chk.bounded('groups of properties that co-constraints read together: absent / valid / junk in every combination', list(group_inputs()), check_raw, classify=lambda w: json.dumps(w, sort_keys=True, default=str)[40:200],
-                bound='marking-definition: 6 definition_type x 10 definition x 3 extensions x 2 name x 2 spec_version values; language-content: 17 contents values; 4 parse variants')
+                bound='marking-definition: 6 definition_type x 10 definition x 3 extensions x 2 name x 2 spec_version values; language-content: 17 contents values; 4 objects x 6 private / option keyword names x junk of every shape; 4 parse variants')
     chk.bounded('structured raw inputs around type / spec_version / extensions / objects', list(raw_inputs()), check_raw, classify=lambda w: json.dumps(w, sort_keys=True, default=str)[:120],
                 bound='9 type values x 5 spec_version values x (5 extension keys x 21 extension values + 10 extensions values) + 18 objects values; 4 parse variants')
     snapshot = {v: {c: dict(m) for c, m in cats.items()} for v, cats in registry.STIX2_OBJ_MAPS.items()}
